@@ -478,6 +478,14 @@ class Parser(object):
                 return ('nested', ln, kw)
             if kw in ('enum', 'trait', 'static', 'mod', 'type'):
                 self.err('nested %s item is outside the supported subset' % kw)
+        if (t[0] == 'id' and t[1] in ('if', 'for', 'loop', 'while', 'unsafe', 'match')) or \
+                (t[0] == 'p' and t[1] == '{'):
+            # block-like expression statement: it ends at its closing brace (unless a method call follows)
+            e = self.parse_primary(False)
+            if self.at_p('.') or self.at_p('?'):
+                e = self.parse_postfix(e, False)
+            semi = self.eat_p(';')
+            return ('expr', ln, e, semi)
         e = self.parse_expr()
         semi = self.eat_p(';')
         return ('expr', ln, e, semi)
